@@ -337,7 +337,9 @@ class Engine:
         else:
             self.alias, self.closures, self.enums, self.variant_owner, self.lazy, self.impls = cached
         self.solver = z3.Solver()
-        self.solver.set('timeout', query_timeout_ms)
+        # no wall-clock 'timeout': z3 implements it with a timer thread per check() that spins in sched_yield
+        # (measured: 40% of CPU time in the kernel); a resource limit is deterministic and thread-free
+        self.solver.set('rlimit', query_timeout_ms * 4000)
         self.stats = dict(paths=0, queries=0, stmts=0, solver_s=0.0, calls=0)
         self.encoded = {}         # fn name -> MIR lines
         self.models_used = set()
